@@ -144,6 +144,11 @@ class Pointwise(Interp):
             return Unknown(f"binop {type(op).__name__} on {l!r},{r!r}")
         kind = "arr" if "arr" in (a.kind, b.kind) else ("nps" if "nps" in (a.kind, b.kind) else "py")
         cont = promote(a, b)
+        if {a.kind, b.kind} == {"nps", "py"} and (a.cont if a.kind == "nps" else b.cont) == "u64" and isinstance(op, (ast.Add, ast.Sub, ast.Mult, ast.Mod, ast.FloorDiv, ast.Div)):
+            # numpy 1.x: a uint64 scalar combined with a Python int is evaluated in float64; the
+            # operand must be exactly representable there (integers are, up to 2**53)
+            big = a.poly if a.kind == "nps" else b.poly
+            self.event(node, "float64:" + type(op).__name__, big, "f64", f"{norm(node) if isinstance(node, ast.AST) else ''} (uint64 scalar with Python int -> float64)")
         if isinstance(op, ast.Add):
             res = a.poly + b.poly
         elif isinstance(op, ast.Sub):
